@@ -4,6 +4,7 @@ package drivers
 // PLUGIN_PROTOCOL_VERSIONS value; layer "pair": a real Client and plugin process.
 
 import (
+	plugin "github.com/hashicorp/go-plugin"
 	"bufio"
 	"encoding/json"
 	"fmt"
@@ -38,6 +39,9 @@ type verCase struct {
 	GRPCFactory bool        `json:"grpc_factory"`
 	Tokens      []verToken  `json:"tokens"`
 	NoList      bool        `json:"no_list"`
+	// FirstServed: the same ClientConfig value has already been used for a launch of a plugin serving
+	// these versions (a supervisor restarting / replacing a plugin with one config struct)
+	FirstServed []verServed `json:"first_served,omitempty"`
 }
 
 func splitForm(form string, versions []int, mk func(v int) vp.SetCfg) (uint, *vp.SetCfg, map[int]vp.SetCfg) {
@@ -134,7 +138,24 @@ func runVersionCase(c verCase, bin string) map[string]interface{} {
 		return vp.SetCfg{Proto: "grpc", Tag: strconv.Itoa(v)} // the host's sets speak both protocols
 	})
 	p := vp.NewPair(bin, hc, pc, nil, nil)
-	defer p.Client.Kill()
+	if len(c.FirstServed) > 0 {
+		pc0 := *pc
+		pc0.Versioned = map[int]vp.SetCfg{}
+		pc0.Legacy, pc0.LegacyVersion = nil, 0
+		for _, sv := range c.FirstServed {
+			pc0.Versioned[sv.V] = vp.SetCfg{Proto: sv.Proto, Tag: strconv.Itoa(sv.V)}
+		}
+		p0 := vp.NewPair(bin, hc, &pc0, nil, nil)
+		if _, _, err := p0.Dispense(); err != nil {
+			out["first_err"] = err.Error()
+		}
+		p0.Client.Kill()
+		// the second launch: the config value of the first, a fresh command
+		p0.Config.Cmd = p.Cmd
+		p.Config = p0.Config
+		p.Client = plugin.NewClient(p.Config)
+	}
+	defer func() { p.Client.Kill() }()
 	_, err := p.Client.Start()
 	out["start_ok"] = err == nil
 	out["negotiated"], out["host_tag"], out["plugin_tag"], out["proto"] = -1, -1, -1, "-"
